@@ -83,12 +83,7 @@ func ruleR8() *Rule {
 		ID:    "R8",
 		Title: "CANCEL: every cancellation poll returns the closed error without writing; a poll precedes the first write",
 		Props: []string{"C18"},
-		Floor: func(cfg Config, prop string) int {
-			if cfg.Vectors {
-				return 12
-			}
-			return 9
-		},
+		Floor: floorFor("R8"),
 		Run: func(c *RuleCtx) {
 			polls := c.p.pollFuncs()
 			if len(polls) == 0 {
@@ -225,7 +220,7 @@ func ruleR16() *Rule {
 		ID:    "R16",
 		Title: "FIELD-REC-0: the merge cannot write the field table at offset 0 (the reader's 'absent' sentinel)",
 		Props: []string{"C05"},
-		Floor: func(cfg Config, prop string) int { return 2 },
+		Floor: floorFor("R16"),
 		Run: func(c *RuleCtx) {
 			// (i) does the reader still treat offset 0 as "absent"?
 			lfn := c.method("SegmentBase", "loadFieldNew")
